@@ -4,7 +4,7 @@
 From ClapModel Require Import Base.Bytes Base.Machine.
 From ClapModel Require Import Parse.Cmd Parse.Build Parse.Errors Parse.Parser.
 From ClapModel Require Import Reentrancy.ReentrancyModel Reentrancy.ReentrancyProofs Reentrancy.ReentrancyParse.
-From ClapModel Require Import Reentrancy.ReentrancyDym Reentrancy.ReentrancyGlobals.
+From ClapModel Require Import Reentrancy.ReentrancyDym Reentrancy.ReentrancyGlobals Reentrancy.ReentrancyMsg.
 From ClapModel Require Import Parse.Valid Parse.Matcher ParseProofs.Dispatch.
 From Coq Require Import List.
 From RecordUpdate Require Import RecordSet.
@@ -235,3 +235,26 @@ Theorem C11_history_ids_order : forall h b c argv,
   outcome_ids (fst (fst (parse_mut (xrun c h) argv))) = outcome_ids (fst (fst (parse_mut c argv))).
 Proof. exact history_ids_order. Qed.
 Print Assumptions C11_history_ids_order.
+
+(** ---- third pass (3): the name-dependent lines of the messages: the version line
+    ([_render_version]: display name, version) and the head of the usage line ([get_usage_name_fallback]:
+    the usage_name that [_build_subcommand] assigns from the parent's current bin name, a string [mid]
+    rendered from the parent's own definition -- ANY function of it -- and the subcommand's names) of
+    every level the parse visits are the same on a reused (any history, failing and mutating parses
+    included), a cloned and a fresh definition; so is the reported error. ---- *)
+Theorem C11_history_messages : forall mid h b c argv,
+  good_name b = true -> xhist_ok b c h = true ->
+  argv_under b (xrun c h) argv = true -> argv_under b c argv = true ->
+  parse_lines mid (xrun c h) argv = parse_lines mid c argv
+  /\ err_of (fst (fst (parse_mut (xrun c h) argv))) = err_of (fst (fst (parse_mut c argv))).
+Proof. exact history_messages. Qed.
+Print Assumptions C11_history_messages.
+
+(** the representation of usage_name by bin_name is consistent: for a subcommand without flag names and
+    a parent without required arguments ([mid] = one space) the stored bin_name IS that usage_name *)
+Theorem C11_bin_name_is_usage_name : forall p s,
+  c_long_flag s = None -> c_short_flag s = None ->
+  c_bin_name (prepare p s) = Some (usage_name_at (fun _ => [32%N]) p (prepare p s))
+  \/ (c_bin_name p = None /\ c_bin_name (prepare p s) = Some (c_name s)).
+Proof. exact prepared_bin_is_usage_name_plain. Qed.
+Print Assumptions C11_bin_name_is_usage_name.
